@@ -49,6 +49,7 @@ def main():
         env.tidalpy()
         mod.run(ctx)
         rc = ctx.finish()
+        env.mark_cache_complete()
     except core.HarnessError as e:
         ctx.close()
         print(f'[{a.prop}] HARNESS ERROR: {e}', file=sys.stderr, flush=True)
